@@ -121,6 +121,11 @@ func judgeDepth(c Case, depth int) vdrv.Verdict {
 		// `for await` / `async function*` as told and turns the enclosing async function into a generator
 		return vdrv.Skip("contradictory-supported-override")
 	}
+	if c.lowers("class-static-field", 2022) && !c.lowers("class-private-static-field", 2022) {
+		// no engine has private static fields without public ones; esbuild then moves `static #x = v` out of
+		// the class as `_A.#x = v`
+		return vdrv.Skip("contradictory-supported-override")
+	}
 	ref, err := W.Script(c.Code, false)
 	if err != nil {
 		return vdrv.Skip("node-infra")
